@@ -42,6 +42,7 @@ RULE = (
     "asyncio.get_running_loop/get_event_loop/new_event_loop/events._get_running_loop/ensure_future/sleep/Lock/"
     "create_task before importing asyncstdlib and runs 2000 workload executions. Non-trivial: >=1 suspension "
     "with an interrupt (tokens) or >=1 awaited step (sync); distinct by (class, scenario choices)."
+    " Extensions of rounds 9-12: replies that are exception instances; workloads that report 'no running event loop'; tee child closed by another tool, tee(source, 0), scoped_iter context entered twice."
 )
 COMPONENTS = COMPONENTS_BASE
 ASSUMPTIONS = [
